@@ -1785,19 +1785,12 @@ namespace gch
 #endif
       }
 
+      template <typename U>
       static constexpr
-      value_ty *
-      to_address (value_ty *p) noexcept
+      U *
+      to_address (U *p) noexcept
       {
-        static_assert (! std::is_function<value_ty>::value, "value_ty is a function pointer.");
-        return p;
-      }
-
-      static constexpr
-      const value_ty *
-      to_address (const value_ty *p) noexcept
-      {
-        static_assert (! std::is_function<value_ty>::value, "value_ty is a function pointer.");
+        static_assert (! std::is_function<U>::value, "U is a function type.");
         return p;
       }
 
